@@ -6,6 +6,7 @@ import (
 	"os"
 	"path/filepath"
 	"sort"
+	"strconv"
 	"strings"
 	"time"
 )
@@ -27,6 +28,10 @@ type Obligation struct {
 	How    string   `json:"how,omitempty"`    // pattern/guard/table entry that discharged it
 	Detail string   `json:"detail,omitempty"` // for violations: what is missing
 	Path   []string `json:"path,omitempty"`   // call path from an entry point
+	need      []string // keys (with failure classes) no entry resolved
+	hows      []string // what resolved the other keys
+	nKnown    int      // how many of those were known findings
+	rawDetail string   // detail as reported by the rule, before notes about entries
 }
 
 type KnownFinding struct {
@@ -156,7 +161,8 @@ func (r *Report) FailC(rule, key string, classes []string, pos, detail string, p
 		o.Detail += " [classes: " + strings.Join(classes, ",") + "]"
 	}
 	nT, nK := 0, 0
-	var hows []string
+	var hows, open []string
+	o.rawDetail = o.Detail
 	for _, k := range keys {
 		if e, ok := r.table[k]; ok && r.condHolds(e, &o) {
 			nT++
@@ -165,6 +171,8 @@ func (r *Report) FailC(rule, key string, classes []string, pos, detail string, p
 		} else if kf, ok := r.known[k]; ok {
 			nK++
 			hows = append(hows, kf.What)
+		} else {
+			open = append(open, k)
 		}
 	}
 	switch {
@@ -176,6 +184,7 @@ func (r *Report) FailC(rule, key string, classes []string, pos, detail string, p
 		o.How = strings.Join(hows, "; ")
 	default:
 		o.Status = StViolation
+		o.need, o.hows, o.nKnown = open, hows, nK
 	}
 	r.Obls = append(r.Obls, o)
 }
@@ -263,6 +272,7 @@ func (r *Report) Finish(seed int) int {
 	for _, o := range r.Obls {
 		haveKey[o.Key] = true
 	}
+	r.rescueRenamed(haveKey)
 	for _, rq := range r.required {
 		if !haveKey[rq[0]] {
 			r.fatal = append(r.fatal, fmt.Sprintf("hand-confirmed rule instance %q no longer exists (%s): the rule would pass vacuously for it", rq[0], rq[1]))
@@ -383,4 +393,192 @@ func (r *Report) Finish(seed int) int {
 		fmt.Println("  ", l)
 	}
 	return exit
+}
+
+
+// rescueRenamed keeps a reviewed entry attached to its construct when a local
+// variable the construct mentions has been renamed.  Obligation keys carry
+// the source text of the construct; a rename of a local changes that text and
+// nothing else.  An unmatched obligation is paired with a reviewed entry of
+// the same rule, function, ordinal and failure class whose own key no rule
+// produced in this run (a stale entry), when the two construct texts differ
+// in exactly one identifier a -> b throughout, no local called a is in scope at
+// the construct any more and b is a local in scope there.  Using a different,
+// already existing variable in place of a (a real change) leaves a in scope
+// and is not rescued; a changed field or callee is not a local and is not
+// rescued either.
+func (r *Report) rescueRenamed(haveKey map[string]bool) {
+	if r.W == nil {
+		return
+	}
+	for i := range r.Obls {
+		o := &r.Obls[i]
+		if o.Status != StViolation || len(o.need) == 0 {
+			continue
+		}
+		hows := append([]string{}, o.hows...)
+		all := true
+		for _, k := range o.need {
+			if _, ok := r.table[k]; ok {
+				all = false // the entry exists and its side condition failed
+				break
+			}
+			rule, fn, cons, tail, ok := splitKey(k)
+			if !ok {
+				all = false
+				break
+			}
+			found := false
+			var cands []string
+			for tk := range r.table {
+				cands = append(cands, tk)
+			}
+			sort.Strings(cands)
+			for _, tk := range cands {
+				trule, tfn, tcons, ttail, ok := splitKey(tk)
+				if !ok || trule != rule || tfn != fn || r.usedTbl[tk] {
+					continue
+				}
+				base := tk
+				if j := strings.LastIndex(base, "#"); j >= 0 && strings.Contains(ttail, "#") {
+					base = base[:j]
+				}
+				if haveKey[base] {
+					continue // the entry's own construct still exists
+				}
+				tord, tclass, _ := strings.Cut(ttail, "#")
+				ord, class, _ := strings.Cut(tail, "#")
+				if tclass != class {
+					continue
+				}
+				var whys []string
+				if tcons != cons {
+					a, b, ok := oneIdentRenamed(tcons, cons)
+					if !ok || r.W.localInScope(o.Pos, a) || !r.W.localInScope(o.Pos, b) {
+						continue
+					}
+					whys = append(whys, fmt.Sprintf("entry written when the local %s was called %s", b, a))
+				}
+				if tord != ord {
+					// later ordinal of the entry's text: constructs with that
+					// text that came earlier in the function are gone (renamed
+					// or removed), so the ordinals of the remaining ones moved
+					// down; only ordinals that cannot exist any more qualify
+					n, err := strconv.Atoi(tord)
+					if err != nil || n < r.keyCount[rule+"|"+fn+"|"+tcons] {
+						continue
+					}
+					whys = append(whys, fmt.Sprintf("entry written for occurrence %d of the text %q in the function; earlier occurrences have since been renamed or removed", n, tcons))
+				}
+				why := strings.Join(whys, "; ")
+				e := r.table[tk]
+				tmp := *o
+				tmp.Detail = o.rawDetail
+				if !r.condHolds(e, &tmp) {
+					continue
+				}
+				r.usedTbl[tk] = true
+				hows = append(hows, fmt.Sprintf("reviewed (%s): %s", why, e.Reason))
+				found = true
+				break
+			}
+			if !found {
+				all = false
+				break
+			}
+		}
+		if all {
+			o.Status = StTable
+			if o.nKnown > 0 {
+				o.Status = StKnown
+			}
+			o.How = strings.Join(hows, "; ")
+		}
+	}
+}
+
+// splitKey splits rule|fn|construct|ordinal[#class]; the construct may itself contain '|'.
+func splitKey(k string) (rule, fn, cons, tail string, ok bool) {
+	i := strings.Index(k, "|")
+	if i < 0 {
+		return
+	}
+	rest := k[i+1:]
+	j := strings.Index(rest, "|")
+	l := strings.LastIndex(rest, "|")
+	if j < 0 || l <= j {
+		return
+	}
+	return k[:i], rest[:j], rest[j+1 : l], rest[l+1:], true
+}
+
+// oneIdentRenamed reports whether new is old with every occurrence of one
+// identifier a replaced by an identifier b that old does not mention.
+func oneIdentRenamed(old, new string) (a, b string, ok bool) {
+	to, tn := identTokens(old), identTokens(new)
+	if len(to) != len(tn) {
+		return
+	}
+	for i := range to {
+		if to[i] == tn[i] {
+			continue
+		}
+		if !isIdentTok(to[i]) || !isIdentTok(tn[i]) {
+			return "", "", false
+		}
+		if a == "" {
+			a, b = to[i], tn[i]
+		} else if to[i] != a || tn[i] != b {
+			return "", "", false
+		}
+	}
+	if a == "" {
+		return "", "", false
+	}
+	for i := range to {
+		if to[i] == b || tn[i] == a {
+			return "", "", false
+		}
+		if to[i] == a && tn[i] != b {
+			return "", "", false
+		}
+	}
+	return a, b, true
+}
+
+func isIdentTok(t string) bool {
+	if t == "" {
+		return false
+	}
+	c := t[0]
+	return c == '_' || c >= 'a' && c <= 'z' || c >= 'A' && c <= 'Z' || c >= 0x80
+}
+
+// identTokens splits s into identifiers and single other characters.
+func identTokens(s string) []string {
+	var out []string
+	for i := 0; i < len(s); {
+		c := s[i]
+		if c == '_' || c >= 'a' && c <= 'z' || c >= 'A' && c <= 'Z' || c >= 0x80 {
+			j := i + 1
+			for j < len(s) && (s[j] == '_' || s[j] >= 'a' && s[j] <= 'z' || s[j] >= 'A' && s[j] <= 'Z' || s[j] >= '0' && s[j] <= '9' || s[j] >= 0x80) {
+				j++
+			}
+			out = append(out, s[i:j])
+			i = j
+			continue
+		}
+		if c >= '0' && c <= '9' {
+			j := i + 1
+			for j < len(s) && (s[j] >= '0' && s[j] <= '9' || s[j] >= 'a' && s[j] <= 'z' || s[j] >= 'A' && s[j] <= 'Z' || s[j] == '_' || s[j] == '.') {
+				j++
+			}
+			out = append(out, s[i:j])
+			i = j
+			continue
+		}
+		out = append(out, s[i:i+1])
+		i++
+	}
+	return out
 }
